@@ -1,6 +1,6 @@
 """C14 — frequency estimates never under-count, saturate safely and age by halving (structural premises).  (DESIGN §4 C14)"""
 from core import (strip_site, fmt, enum_paths, path_atoms, path_calls, mentions, subexprs, is_call_to, bool_branches,
-                  closure_captures, const_of, le_truth, lt_truth, reaches_call)
+                  closure_captures, const_of, le_truth, lt_truth, reaches_call, same_value)
 
 from sym import ipaths
 from iters import elem_loops, ELEM
@@ -67,14 +67,31 @@ def run(ctx):
     ok = True
     detail = ""
     n_w = 0
-    for p in ipaths(F, f, stop=lambda n_: False, depth=2):
+    PAR = ("binop", "BitAnd", pos, ("const", 1, "u64"))
+
+    def parity_of(p_):
+        """0 / 1 when the path has branched on `pos & 1` (a nibble selected by a match instead of by arithmetic), else None"""
+        for a in p_.atoms:
+            if a[0] == "bool" and a[1][0] == "binop" and a[1][1] == "Eq":
+                x, y = a[1][2], a[1][3]
+                for u, v in ((x, y), (y, x)):
+                    if canon(u) == canon(PAR) and v[0] == "const" and v[1] in (0, 1):
+                        return v[1] if a[2] else 1 - v[1]
+        return None
+
+    def at_parity(e, par):
+        return fold_consts(_replace(canon(e), canon(PAR), ("const", par))) if par is not None else canon(e)
+
+    for p in ipaths(F, f, stop=lambda n_: False, depth=3):
+        par = parity_of(p)
         if len(p.stores) > 1:
             ok, detail = False, "%d writes on one path" % len(p.stores)
         for tgt, rv, w_ in p.stores:
             n_w += 1
-            lt = [lt_truth(a, is_cur, is_max) for a in p.atoms if a[4] < w_[3]]
+            is_cur_p = lambda z, par=par: at_parity(z, par) == at_parity(cur, par)
+            lt = [lt_truth(a, is_cur_p, is_max) for a in p.atoms if a[4] < w_[3]]
             lt = [x for x in lt if x is not None]
-            if not (eq_mod_comm(tgt, cell) and eq_mod_comm(rv, want_rv)):
+            if not (eq_mod_comm(tgt, cell) and at_parity(rv, par) == at_parity(want_rv, par)):
                 ok, detail = False, "store %s = %s" % (fmt(tgt)[:80], fmt(rv)[:120])
             elif not (lt and lt[-1] is True):
                 ok, detail = False, "the write is not preceded by the saturation test of the same cell"
@@ -83,10 +100,16 @@ def run(ctx):
               "the only write is row[pos/2] += 1 << shift, and only when ((row[pos/2] >> shift) & 0xF) < 0xF for the same index and shift (premise of Lemma A: no carry into the neighbour, no wrap)",
               f.where(), detail)
     # ---- R14.2 ------------------------------------------------------------------------------------
-    r = get_fn.origin_local(0)
     want = ("binop", "BitAnd", ("binop", "Shr", cell, SHIFT(pos)), ("const", 15, "u8"))
-    ctx.check(eq_mod_comm(r, want), "R14.2", "%s|read-agrees-with-increment" % get_fn.name,
-              "the read extracts (row[pos/2] >> ((pos & 1) * 4)) & 0xF: the same index, shift and mask as the increment", get_fn.where(), fmt(r))
+    badr = []
+    n_r = 0
+    for p in ipaths(F, get_fn, stop=lambda n_: False, depth=3):
+        par = parity_of(p)
+        n_r += 1
+        if at_parity(p.ret, par) != at_parity(want, par):
+            badr.append(fmt(p.ret)[:120])
+    ctx.check(not badr and n_r >= 1, "R14.2", "%s|read-agrees-with-increment" % get_fn.name,
+              "the read extracts (row[pos/2] >> ((pos & 1) * 4)) & 0xF: the same index, shift and mask as the increment", get_fn.where(), "; ".join(badr[:2]))
     # ---- R14.3 ------------------------------------------------------------------------------------
     want_consts = {"BINARY_ONE": 1, "MAX_VALUE_LOWER_FOUR_BITS": 15, "SHIFT_OFFSET": 4, "HALF_COUNTERS_BITS": 0x77, "ROWS": 4}
     for k, v in want_consts.items():
@@ -256,22 +279,24 @@ def run(ctx):
                     rows_.add((lt[0] if lt else None, q.ret))
                 is_min = rows_ == {(True, ("param", 3)), (False, ("param", 2))}
             okm = maps_get and is_min and init == ("const", 255, "u8") and strip_site(r) == strip_site(Lg.extra["result"])
-        elif Lg.sink == "for_each":
-            clo = p.op_origin(p.term(Lg.bb)["args"][1])
-            cg = F.fn(clo[1]) if clo[0] == "agg" else None
-            if cg is not None:
-                gets = [(b_, t_) for b_, t_ in cg.calls() if t_.get("rpath") == get_fn.name]
-                cc = closure_captures(F, cg.name)
-                mn = cc[1].get("min") if cc else None
-                st = cg.stores()
-                if len(gets) == 1:
-                    bg, tg = gets[0]
-                    okm = mn == ("const", 255, "u8") and len(st) == 1 and strip_site(st[0][3]) == strip_site(cg.origin_call(bg, tg))
-                    if okm:
-                        g = [(b_, tt) for b_, expr, tt, ft in bool_branches(cg) if expr[0] == "binop" and expr[1] == "Lt" and strip_site(expr[2]) == strip_site(cg.origin_call(bg, tg)) and expr[3] == ("field", ("env",), "min")]
-                        okm = len(g) == 1 and cg.edge_dominates(g[0], st[0][0]) and st[0][2] == ("field", ("env",), "min")
-                    okm = okm and r == ("const", 255, "u8")
-        elif Lg.sink == "for":
+        elif Lg.sink == "for_each" and Lg.bodies:
+            # the closure body run per row (helpers such as an `observe(x)` method of a running-minimum type inlined): one
+            # reading; the accumulator - which starts at u8::MAX - is overwritten with it exactly when reading < accumulator
+            okb = True
+            for q in Lg.bodies:
+                gs = q.calls({get_fn.name})
+                lts = [a for a in q.atoms if a[0] == "bool" and a[1][0] == "binop" and a[1][1] == "Lt" and len(gs) == 1 and strip_site(a[1][2]) == strip_site(gs[0].res)]
+                if len(gs) != 1 or len(lts) != 1:
+                    okb = False
+                    continue
+                acc = strip_site(lts[0][1][3])
+                if lts[0][2]:
+                    okb = okb and len(q.stores) == 1 and strip_site(q.stores[0][0]) == acc and strip_site(q.stores[0][1]) == strip_site(gs[0].res)
+                else:
+                    okb = okb and not q.stores
+                okb = okb and acc == ("const", 255, "u8")
+            okm = okb and (r == ("const", 255, "u8") or (r[0] == "agg" and [x for _, x in r[3]] == [("const", 255, "u8")]))
+        elif Lg.sink in ("for", "while"):
             # inline fold: some local is overwritten with the row's reading exactly under `reading < that local`, starts at
             # u8::MAX and is what the function returns
             folds = set()
@@ -381,20 +406,58 @@ def run(ctx):
     est = [f for n, f in F.fns.items() if f.kind != "Closure" and any(t.get("rpath") in sk_est for b, t in f.calls()) and f.rec.get("ret") == "u8" and "TinyLFU" in f.locals[1]["ty"]]
     for f in est:
         bad = []
-        for p in enum_paths(f):
-            atoms = path_atoms(f, p)
-            has = [a for a in atoms if a[0] == "bool" and is_call_to(a[1], "DoorKeeper::has")]
-            adds = [x for x in f.stores() if False]
-            # the returned local is the sketch estimate, +1 iff the doorkeeper has the key
-            plus = [1 for b in p for s in f.blocks[b]["stmts"] if s["k"] == "assign" and s["rv"]["k"] == "binop" and s["rv"]["op"].startswith("Add")]
+        rows_ = set()
+        has_fns = {n_ for n_ in F.fns if n_.endswith("DoorKeeper::has")}
+        # path-sensitive, helpers inlined (the doorkeeper's answer may travel through a private enum or helper before it
+        # decides): the value returned is the sketch's estimate, plus exactly 1 iff the doorkeeper has the key
+        for p in ipaths(F, f, stop=lambda n_: n_ in sk_est or n_ in has_fns, depth=3):
+            sk = p.calls(sk_est)
+            has = [a for a in p.atoms if a[0] == "bool" and a[1][0] == "call" and a[1][1] in has_fns]
+            if len(sk) != 1 or sk[0].args[1:] != (("param", 2),):
+                bad.append("the sketch is not asked once for the given key hash")
+                continue
             if not has:
                 bad.append("doorkeeper not consulted")
-            elif has[0][2] != (len(plus) == 1):
-                bad.append("estimate must add 1 iff the doorkeeper has the key")
-        r = f.origin_local(0)
-        ctx.check(not bad and mentions(r, lambda s: s[0] == "call" and s[1] in sk_est), "R14.7", "%s|sketch-plus-doorkeeper" % f.name,
-                  "estimate = sketch estimate + (1 if the doorkeeper has the key)", f.where(), "; ".join(bad))
+                continue
+            if not same_value(has[0][1][2][1], ("param", 2)):
+                bad.append("the doorkeeper is asked about another key")
+            base = strip_site(sk[0].res)
+            r_ = strip_site(p.ret)
+            plus1 = canon(r_) == canon(("binop", "Add", base, ("const", 1, "u8")))
+            plain = r_ == base
+            rows_.add(has[0][2])
+            if not ((has[0][2] and plus1) or (not has[0][2] and plain)):
+                bad.append("estimate must add 1 iff the doorkeeper has the key (has=%s returns %s)" % (has[0][2], fmt(r_)[:60]))
+        ctx.check(not bad and rows_ == {True, False}, "R14.7", "%s|sketch-plus-doorkeeper" % f.name,
+                  "estimate = sketch estimate + (1 if the doorkeeper has the key)", f.where(), "; ".join(sorted(set(bad))))
     ctx.floor("R14.7", "TinyLFU estimate functions", len(est), 1)
+
+
+def _replace(e, target, repl):
+    if e == target:
+        return repl
+    if not isinstance(e, tuple):
+        return e
+    return tuple(_replace(x, target, repl) if isinstance(x, tuple) else x for x in e)
+
+
+def fold_consts(e):
+    """constant folding over a canon()ical expression (consts are ("const", v)), re-canonicalised"""
+    if not isinstance(e, tuple) or not e:
+        return e
+    e = tuple(fold_consts(x) if isinstance(x, tuple) else x for x in e)
+    if e[0] == "cast" and e[1][0] == "const":
+        return e[1]
+    if e[0] == "binop" and e[2][0] == "const" and e[3][0] == "const" and isinstance(e[2][1], int) and isinstance(e[3][1], int):
+        a, b = e[2][1], e[3][1]
+        ops = {"Add": a + b, "Mul": a * b, "Shl": a << b if 0 <= b < 64 else None, "Shr": a >> b if 0 <= b < 64 else None, "BitAnd": a & b, "BitOr": a | b, "BitXor": a ^ b}
+        if ops.get(e[1]) is not None:
+            return ("const", ops[e[1]])
+    if e[0] == "binop" and e[1] in ("Shr", "Shl") and e[3] == ("const", 0):
+        return e[2]
+    if e[0] == "binop" and e[1] == "Mul" and ("const", 0) in (e[2], e[3]):
+        return ("const", 0)
+    return canon(e)
 
 
 def canon(e):
